@@ -141,6 +141,30 @@ Theorem C16_continuous_public : forall (A : Type) (d : A) ts rows tref ep w0 w1,
 Proof. exact pc_public_spec_thm. Qed.
 Print Assumptions C16_continuous_public.
 
+(* 11'. EXACT form of 11 with the sampling step dt named: the hypothesis of 11 is really "the first two samples are one sampling
+        step apart".  Then the rows are the offsets o with -w0 <= o*dt <= w1 ... *)
+Theorem C16_continuous_public_step : forall (A : Type) (d : A) ts rows tref ep w0 w1 dt,
+  nth 1 ts 0 - nth 0 ts 0 = dt -> 0 < dt -> 0 <= w0 -> 0 <= w1 ->
+  sortedZ ts -> sortedZ tref -> canonical ep -> length rows = length ts ->
+  pc_public d ts rows tref ep w0 w1 = pc_public_spec_step dt ts rows tref ep w0 w1.
+Proof. exact pc_public_step_thm. Qed.
+Print Assumptions C16_continuous_public_step.
+
+(* ... and the statement is FALSE of the model (= of `bin_size = time_array[1] - time_array[0]`) when a gap separates the first
+   two samples of a series that is regular (step dt) inside its epochs: samples 0 | 10..14 in the epochs [0,1], [9,15], event 12,
+   window 2+2 -> one row (0, value 3) instead of the five samples at -2..2.  Reported by the harness under
+   {op: compute_perievent_continuous, part: rows, first_step: gap} *)
+Theorem C16_continuous_first_step_refuted :
+  exists (ts rows tref : list Z) (ep : iset) (w0 w1 dt : Z),
+    sortedZ ts /\ sortedZ tref /\ canonical ep /\ length rows = length ts /\ 0 < dt /\ 0 <= w0 /\ 0 <= w1
+    /\ regular_in_epochsb dt ts ep = true
+    /\ nth 1 ts 0 - nth 0 ts 0 <> dt
+    /\ pc_public 0 ts rows tref ep w0 w1 = ([0], [[Some 3]])
+    /\ pc_public_spec_step dt ts rows tref ep w0 w1
+       = ([-2; -1; 0; 1; 2], [[Some 1; Some 2; Some 3; Some 4; Some 5]]).
+Proof. exact pc_public_first_step_refuted. Qed.
+Print Assumptions C16_continuous_first_step_refuted.
+
 (* non-vacuity: lags exactly on bin edges (12 - 0 = 12 = 16 - b/2 is counted in the bin centred on 16), coincident
    targets, an event nearer to each epoch edge than the window, two epochs *)
 Example C16_nonvacuous :
